@@ -4,7 +4,8 @@ from fractions import Fraction
 
 from hypothesis import strategies as st
 
-PRE_DISPATCH = ["all", 1, 2, 3, 4, 5, 7, 9, "n_jobs", "2*n_jobs", "1.5*n_jobs", "3*n_jobs-1", "2 * n_jobs", "n_jobs+1"]
+PRE_DISPATCH = ["all", 1, 2, 3, 4, 5, 7, 9, "n_jobs", "2*n_jobs", "1.5*n_jobs", "1.5*n_jobs", "3*n_jobs-1", "2 * n_jobs", "n_jobs+1",
+                "2.5*n_jobs", "0.7*n_jobs", "1.3*n_jobs"]
 
 
 def eval_pre_dispatch(pd, n_jobs):
@@ -15,7 +16,9 @@ def eval_pre_dispatch(pd, n_jobs):
         return pd
     expr = pd.replace(" ", "")
     table = {"n_jobs": Fraction(n_jobs), "2*n_jobs": Fraction(2 * n_jobs), "1.5*n_jobs": Fraction(3 * n_jobs, 2),
-             "3*n_jobs-1": Fraction(3 * n_jobs - 1), "n_jobs+1": Fraction(n_jobs + 1)}
+             "3*n_jobs-1": Fraction(3 * n_jobs - 1), "n_jobs+1": Fraction(n_jobs + 1),
+             "2.5*n_jobs": Fraction(5 * n_jobs, 2), "0.7*n_jobs": Fraction(7 * n_jobs, 10), "1.3*n_jobs": Fraction(13 * n_jobs, 10)}
+    # a fractional amount allows only its integer part: 7.5 pre-dispatched tasks means at most 7
     return int(table[expr])
 
 
@@ -29,7 +32,7 @@ def max_batch(spec):
 
 @st.composite
 def configs(draw, return_as=("list",), inputs=("list", "generator", "iterator")):
-    n_jobs = draw(st.integers(2, 4))
+    n_jobs = draw(st.sampled_from([2, 2, 3, 3, 4, 4, 5, 6]))
     bs = draw(st.sampled_from([1, 1, 2, 3, 7, "auto"]))
     spec = {
         "n_jobs": n_jobs,
